@@ -1208,6 +1208,10 @@ struct TemplateCore {
                             }
                         }
                     }
+
+                    // Not a usable {N}: go on with the unit after '{'.
+                    index = (start + SizeT{1});
+                    continue;
                 }
 
                 ++index;
